@@ -17,10 +17,21 @@ create)
     sed -i 's#git_rev("/repo")#git_rev("/tmp/lab/repo")#' sim/src/runner.rs
     ./check setup
     ;;
+refresh)
+    # bring the lab up to date with /verif's working tree and /repo's HEAD
+    [ -d /tmp/lab/verif ] || { echo "no lab"; exit 2; }
+    git -C /tmp/lab/repo checkout -q --detach "$(git -C /repo rev-parse HEAD)" || exit 2
+    git -C /tmp/lab/repo checkout -q -- . && git -C /tmp/lab/repo clean -fdq
+    rsync -a --delete --exclude .git --exclude replay --exclude evidence --exclude target /verif/ /tmp/lab/verif/
+    cd /tmp/lab/verif || exit 2
+    sed -i 's#"/repo/#"/tmp/lab/repo/#' shadow/*/Cargo.toml sim/src/main.rs
+    sed -i 's#git_rev("/repo")#git_rev("/tmp/lab/repo")#' sim/src/runner.rs
+    ./check setup
+    ;;
 remove)
     git -C /repo worktree remove --force /tmp/lab/repo
     rm -rf /tmp/lab
     git -C /repo worktree prune
     ;;
-*) echo "usage: tools/lab.sh create|remove"; exit 2 ;;
+*) echo "usage: tools/lab.sh create|refresh|remove"; exit 2 ;;
 esac
